@@ -5,6 +5,14 @@
 //!     <id> k=e2e pssm=<row/row/...> seq=<ACTGN...>
 //! (f32 cells and thresholds as decimal u32 bit patterns, u8 as decimal, cells of a row
 //! separated by `,`, `m=-` for a matrix without rows, `m=@v p=r:c:v;...` a constant matrix with planted cells; `f16` / `f48` / `f64` are f32 and `b16` / `b48` / `b64` u8 with 16 / 48 / 64 columns).
+//! Optional on the matrix kinds: `h=<op>;<op>;...` a HISTORY of the (one, reused) StripedScores buffer before
+//! the final `resize(R, mi)` + cell writes: `r<rows>:<v>` = `scores.resize(rows, rows*C)` then every cell of
+//! rows 0..rows := v; `d<rows>:<v>` = `scores.matrix_mut().resize(rows)` then the same fill; `S<g|s|a><a>-<b>`
+//! (k=f32 / k=u8 only) = `Pipeline::generic()/sse2()/avx2().score_rows_into(pssm, seq, a..b, &mut scores)` of a
+//! built-in motif and sequence (12 rows).  `w=<k>`: only the first k rows of `m` are written after the final
+//! resize (the other rows keep what the buffer holds: kept content or default rows).
+//! `k=e2e ... rr=a-b;c-d;... t=<bits> [dt=u8]`: the Scanner pattern -- score_rows_into of each row range in turn
+//! into ONE buffer; the observation is that of the last range, with `X.ix`, `X.th` in addition.
 //! `maxi corpus` prints the boundary corpus (same format).
 //! `maxi run` appends ` => key=value ...` with, for every entry point,
 //!     <p>.max  N | <value>        <p>.am  N | <row>:<col> (or an offset)      <p>.th  - | r:c,r:c,...
@@ -15,11 +23,18 @@
 //!                   scores[argmax offset])
 //!     lin           Scores::{max,argmax,threshold} of scores.unstripe()
 //! For `e2e`: per forced arm X, `X.R` rows, `X.mi` max_index, `X.c` all cells, `X.max`, `X.am`.
+//! Matrix kinds also print `h.R` = matrix().rows(), `h.it` = matrix().iter().count(), `h.lh` / `h.ih` = hash of
+//! the cells of rows 0..rows() (through Index) / of the rows yielded by matrix().iter().
 
 use lightmotif::abc::Background;
 use lightmotif::abc::Dna;
 use lightmotif::dense::DenseMatrix;
 use lightmotif::dense::MatrixCoordinates;
+use lightmotif::dense::MatrixElement;
+use lightmotif::num::PositiveLength;
+use lightmotif::pli::Score;
+use lightmotif::pwm::DiscreteMatrix;
+use lightmotif::seq::StripedSequence;
 use lightmotif::num::{U16, U32, U48, U64};
 use lightmotif::pli::dispatch::Dispatch;
 use lightmotif::pli::verif::force_backend;
@@ -115,6 +130,128 @@ fn arm_name(a: &Dispatch) -> &'static str {
 
 const ARMS: [Dispatch; 3] = [Dispatch::Generic, Dispatch::Sse2, Dispatch::Avx2];
 
+
+// ---------------------------------------------------------------- reused buffers
+
+type Fields = std::collections::HashMap<String, String>;
+
+/// hash of a sequence of rows of cells (the same fold as `hash_rows` of ocaml/maxi/driver.ml)
+struct RowHash(u64);
+const HASH_MOD: u64 = 2147483647; // 2^31 - 1
+impl RowHash {
+    fn new() -> Self {
+        RowHash(2166136261 % HASH_MOD)
+    }
+    fn step(&mut self, x: u64) {
+        self.0 = (self.0 * 16777619 + x + 1) % HASH_MOD;
+    }
+    fn row(&mut self, cells: impl Iterator<Item = u32>) {
+        self.step(4294967311);
+        for c in cells {
+            self.step(c as u64);
+        }
+    }
+}
+
+/// built-in motif / sequence of the `S` history steps: 12 rows of 32 columns
+struct ScoreCtx {
+    pssm: ScoringMatrix<Dna>,
+    dm: DiscreteMatrix<Dna>,
+    striped: StripedSequence<Dna, U32>,
+}
+
+fn score_ctx() -> ScoreCtx {
+    const PATTERNS: &[&str] = &["GTTGACCTTATCAAC", "GTTGATCCAGTCAAC"];
+    let mut state = 0x2545_F491u32;
+    let mut seq: Vec<u8> = (0..384)
+        .map(|_| {
+            state = state.wrapping_mul(1_664_525).wrapping_add(1_013_904_223);
+            b"ACGT"[(state >> 24) as usize & 3]
+        })
+        .collect();
+    seq[5..5 + 15].copy_from_slice(PATTERNS[0].as_bytes());
+    seq[200..200 + 15].copy_from_slice(PATTERNS[1].as_bytes());
+    let enc = EncodedSequence::<Dna>::encode(String::from_utf8(seq).unwrap()).unwrap();
+    let mut striped = enc.to_striped::<U32>();
+    let cm = CountMatrix::<Dna>::from_sequences(PATTERNS.iter().map(|x| EncodedSequence::encode(x).unwrap())).unwrap();
+    let pssm = cm.to_freq(0.1).to_scoring(None);
+    striped.configure(&pssm);
+    let dm = pssm.to_discrete();
+    ScoreCtx { pssm, dm, striped }
+}
+
+fn parse_range(s: &str) -> std::ops::Range<usize> {
+    let (a, b) = s.split_once('-').unwrap();
+    a.parse().unwrap()..b.parse().unwrap()
+}
+
+/// Build the score buffer of a matrix case: the history `h=` (if any) on one `StripedScores`, then
+/// `resize(R, mi)` and the cells of the first `w` rows of `m`.
+fn build_scores<T: MatrixElement, C: PositiveLength>(
+    m: &[Vec<u32>],
+    mi: usize,
+    f: &Fields,
+    conv: fn(u32) -> T,
+    score: &dyn Fn(&mut StripedScores<T, C>, char, std::ops::Range<usize>),
+) -> StripedScores<T, C> {
+    let mut s = StripedScores::<T, C>::empty();
+    if let Some(h) = f.get("h") {
+        for op in h.split(';').filter(|x| !x.is_empty()) {
+            let kind = op.as_bytes()[0] as char;
+            match kind {
+                'r' | 'd' => {
+                    let (rows, v) = op[1..].split_once(':').unwrap();
+                    let rows: usize = rows.parse().unwrap();
+                    let v = conv(v.parse().unwrap());
+                    if kind == 'r' {
+                        s.resize(rows, rows * C::USIZE);
+                    } else {
+                        s.matrix_mut().resize(rows);
+                    }
+                    for r in 0..rows {
+                        for c in 0..C::USIZE {
+                            s.matrix_mut()[r][c] = v;
+                        }
+                    }
+                }
+                'S' => score(&mut s, op.as_bytes()[1] as char, parse_range(&op[2..])),
+                _ => panic!("unknown history step {}", op),
+            }
+        }
+    }
+    s.resize(m.len(), mi);
+    let w = f.get("w").map(|x| x.parse().unwrap()).unwrap_or(m.len());
+    for (r, row) in m.iter().enumerate().take(w) {
+        for (c, &v) in row.iter().enumerate() {
+            s.matrix_mut()[r][c] = conv(v);
+        }
+    }
+    s
+}
+
+/// the logical content (rows 0..rows(), read through Index) + the `h.*` observations
+fn buffer_obs<T: MatrixElement, C: PositiveLength>(s: &StripedScores<T, C>, bits: fn(T) -> u32) -> (Vec<Vec<u32>>, String) {
+    let rows = s.matrix().rows();
+    let m: Vec<Vec<u32>> = (0..rows)
+        .map(|r| (0..C::USIZE).map(|c| bits(s.matrix()[r][c])).collect())
+        .collect();
+    let mut lh = RowHash::new();
+    for row in m.iter() {
+        lh.row(row.iter().cloned());
+    }
+    let mut ih = RowHash::new();
+    let mut it = 0usize;
+    for row in s.matrix().iter() {
+        ih.row(row.iter().map(|&x| bits(x)));
+        it += 1;
+    }
+    (m, format!("h.R={} h.it={} h.lh={} h.ih={}", rows, it, lh.0, ih.0))
+}
+
+fn no_score<T: MatrixElement, C: PositiveLength>(_: &mut StripedScores<T, C>, _: char, _: std::ops::Range<usize>) {
+    panic!("S history steps need k=f32 or k=u8");
+}
+
 // ---------------------------------------------------------------- running
 
 /// Linear scores built from the cells in column-major order, truncated at
@@ -129,16 +266,20 @@ fn linear_f32(m: &[Vec<u32>], mi: usize, cols: usize, unstriped: Option<Scores<f
     (Scores::new(flat), same)
 }
 
-fn run_f32_32(m: &[Vec<u32>], mi: usize, t: u32) -> String {
-    let mut s = StripedScores::<f32, U32>::empty();
-    s.resize(m.len(), mi);
-    for (r, row) in m.iter().enumerate() {
-        for (c, &v) in row.iter().enumerate() {
-            s.matrix_mut()[r][c] = f32::from_bits(v);
+fn run_f32_32(m_in: &[Vec<u32>], mi: usize, t: u32, f: &Fields) -> String {
+    let score = |s: &mut StripedScores<f32, U32>, arm: char, rows: std::ops::Range<usize>| {
+        let ctx = score_ctx();
+        match arm {
+            'g' => Pipeline::<Dna, _>::generic().score_rows_into(&ctx.pssm, &ctx.striped, rows, s),
+            's' => Pipeline::<Dna, _>::sse2().unwrap().score_rows_into(&ctx.pssm, &ctx.striped, rows, s),
+            _ => Pipeline::<Dna, _>::avx2().unwrap().score_rows_into(&ctx.pssm, &ctx.striped, rows, s),
         }
-    }
+    };
+    let s = build_scores::<f32, U32>(m_in, mi, f, f32::from_bits, &score);
+    let (m, hobs) = buffer_obs(&s, f32::to_bits);
+    let m = &m[..];
     let t = f32::from_bits(t);
-    let mut out: Vec<String> = vec![];
+    let mut out: Vec<String> = vec![hobs];
     macro_rules! pipeline {
         ($name:expr, $pli:expr) => {{
             let p = $pli;
@@ -174,22 +315,18 @@ fn run_f32_32(m: &[Vec<u32>], mi: usize, t: u32) -> String {
 
 /// f32 matrices with another column count (16, 48): Pipeline::generic() and Pipeline::sse2()
 /// (any multiple of 16 columns) + linear scores.
-fn run_f32_cols<C>(m: &[Vec<u32>], mi: usize, t: u32) -> String
+fn run_f32_cols<C>(m_in: &[Vec<u32>], mi: usize, t: u32, f: &Fields) -> String
 where
     C: lightmotif::num::PositiveLength + lightmotif::num::MultipleOf<U16>,
     Pipeline<Dna, lightmotif::pli::platform::Generic>: Maximum<f32, C> + Threshold<f32, C>,
     Pipeline<Dna, lightmotif::pli::platform::Sse2>: Maximum<f32, C> + Threshold<f32, C>,
 {
     let cols = C::USIZE;
-    let mut s = StripedScores::<f32, C>::empty();
-    s.resize(m.len(), mi);
-    for (r, row) in m.iter().enumerate() {
-        for (c, &v) in row.iter().enumerate() {
-            s.matrix_mut()[r][c] = f32::from_bits(v);
-        }
-    }
+    let s = build_scores::<f32, C>(m_in, mi, f, f32::from_bits, &no_score::<f32, C>);
+    let (m, hobs) = buffer_obs(&s, f32::to_bits);
+    let m = &m[..];
     let t = f32::from_bits(t);
-    let mut out: Vec<String> = vec![];
+    let mut out: Vec<String> = vec![hobs];
     macro_rules! pipeline {
         ($name:expr, $pli:expr) => {{
             let p = $pli;
@@ -211,22 +348,18 @@ where
 
 /// u8 matrices with another column count (16, 48, 64): Pipeline::generic() and Pipeline::sse2()
 /// (default implementations) + linear scores.
-fn run_u8_cols<C>(m: &[Vec<u32>], mi: usize, t: u32) -> String
+fn run_u8_cols<C>(m_in: &[Vec<u32>], mi: usize, t: u32, f: &Fields) -> String
 where
     C: lightmotif::num::PositiveLength + lightmotif::num::MultipleOf<U16>,
     Pipeline<Dna, lightmotif::pli::platform::Generic>: Maximum<u8, C> + Threshold<u8, C>,
     Pipeline<Dna, lightmotif::pli::platform::Sse2>: Maximum<u8, C> + Threshold<u8, C>,
 {
     let cols = C::USIZE;
-    let mut s = StripedScores::<u8, C>::empty();
-    s.resize(m.len(), mi);
-    for (r, row) in m.iter().enumerate() {
-        for (c, &v) in row.iter().enumerate() {
-            s.matrix_mut()[r][c] = v as u8;
-        }
-    }
+    let s = build_scores::<u8, C>(m_in, mi, f, |v| v as u8, &no_score::<u8, C>);
+    let (m, hobs) = buffer_obs(&s, |x| x as u32);
+    let m = &m[..];
     let t = t as u8;
-    let mut out: Vec<String> = vec![];
+    let mut out: Vec<String> = vec![hobs];
     macro_rules! pipeline {
         ($name:expr, $pli:expr) => {{
             let p = $pli;
@@ -249,16 +382,20 @@ where
     out.join(" ")
 }
 
-fn run_u8_32(m: &[Vec<u32>], mi: usize, t: u32) -> String {
-    let mut s = StripedScores::<u8, U32>::empty();
-    s.resize(m.len(), mi);
-    for (r, row) in m.iter().enumerate() {
-        for (c, &v) in row.iter().enumerate() {
-            s.matrix_mut()[r][c] = v as u8;
+fn run_u8_32(m_in: &[Vec<u32>], mi: usize, t: u32, f: &Fields) -> String {
+    let score = |s: &mut StripedScores<u8, U32>, arm: char, rows: std::ops::Range<usize>| {
+        let ctx = score_ctx();
+        match arm {
+            'g' => Pipeline::<Dna, _>::generic().score_rows_into(&ctx.dm, &ctx.striped, rows, s),
+            's' => Pipeline::<Dna, _>::sse2().unwrap().score_rows_into(&ctx.dm, &ctx.striped, rows, s),
+            _ => Pipeline::<Dna, _>::avx2().unwrap().score_rows_into(&ctx.dm, &ctx.striped, rows, s),
         }
-    }
+    };
+    let s = build_scores::<u8, U32>(m_in, mi, f, |v| v as u8, &score);
+    let (m, hobs) = buffer_obs(&s, |x| x as u32);
+    let m = &m[..];
     let t = t as u8;
-    let mut out: Vec<String> = vec![];
+    let mut out: Vec<String> = vec![hobs];
     macro_rules! pipeline {
         ($name:expr, $pli:expr) => {{
             let p = $pli;
@@ -296,8 +433,14 @@ fn run_u8_32(m: &[Vec<u32>], mi: usize, t: u32) -> String {
 }
 
 /// End-to-end padding claim: real ScoringMatrix (wildcard column -inf) + sequence -> score -> max.
-fn run_e2e(pssm: &[Vec<u32>], seq: &str) -> String {
+/// With `rr`: the Scanner pattern -- `score_rows_into` of each row range in turn into ONE buffer
+/// (f32, or u8 through `to_discrete()` when `dt=u8`), then max / argmax / threshold of the buffer.
+fn run_e2e(pssm: &[Vec<u32>], seq: &str, f: &Fields) -> String {
     let mut out: Vec<String> = vec![];
+    let ranges: Option<Vec<std::ops::Range<usize>>> =
+        f.get("rr").map(|x| x.split(';').filter(|y| !y.is_empty()).map(parse_range).collect());
+    let discrete = f.get("dt").map(|x| x == "u8").unwrap_or(false);
+    let t: u32 = f.get("t").map(|x| x.parse().unwrap()).unwrap_or(0);
     for arm in ARMS.iter() {
         force_backend(Some(arm.clone()));
         let n = arm_name(arm);
@@ -311,6 +454,58 @@ fn run_e2e(pssm: &[Vec<u32>], seq: &str) -> String {
             let enc = EncodedSequence::<Dna>::encode(seq).unwrap();
             let mut striped = enc.to_striped::<U32>();
             striped.configure(&sm);
+            if let Some(ranges) = &ranges {
+                let pli = Pipeline::<Dna, Dispatch>::dispatch();
+                if discrete {
+                    let dm = sm.to_discrete();
+                    let mut scores = StripedScores::<u8, U32>::empty();
+                    for r in ranges.iter() {
+                        pli.score_rows_into(&dm, &striped, r.clone(), &mut scores);
+                    }
+                    let (cells, _) = buffer_obs(&scores, |x| x as u32);
+                    let mx = no_panic(|| scores.max());
+                    let am = no_panic(|| scores.argmax());
+                    let ix = match am {
+                        Some(Some(off)) => format!(" {}.ix={}", n, show_opt(no_panic(|| Some(scores[off])))),
+                        _ => String::new(),
+                    };
+                    let th = no_panic(|| scores.threshold(t as u8));
+                    return format!(
+                        "{n}.R={} {n}.mi={} {n}.c={} {n}.max={} {n}.am={}{} {n}.th={}",
+                        scores.matrix().rows(),
+                        scores.max_index(),
+                        show_matrix(&cells),
+                        show_opt(mx),
+                        show_opt(am),
+                        ix,
+                        show_list(th),
+                        n = n
+                    );
+                }
+                let mut scores = StripedScores::<f32, U32>::empty();
+                for r in ranges.iter() {
+                    pli.score_rows_into(&sm, &striped, r.clone(), &mut scores);
+                }
+                let (cells, _) = buffer_obs(&scores, f32::to_bits);
+                let mx = no_panic(|| scores.max().map(f32::to_bits));
+                let am = no_panic(|| scores.argmax());
+                let ix = match am {
+                    Some(Some(off)) => format!(" {}.ix={}", n, show_opt(no_panic(|| Some(scores[off].to_bits())))),
+                    _ => String::new(),
+                };
+                let th = no_panic(|| scores.threshold(f32::from_bits(t)));
+                return format!(
+                    "{n}.R={} {n}.mi={} {n}.c={} {n}.max={} {n}.am={}{} {n}.th={}",
+                    scores.matrix().rows(),
+                    scores.max_index(),
+                    show_matrix(&cells),
+                    show_opt(mx),
+                    show_opt(am),
+                    ix,
+                    show_list(th),
+                    n = n
+                );
+            }
             let scores: StripedScores<f32, U32> = sm.score(&striped);
             let mut cells: Vec<Vec<u32>> = vec![];
             for r in 0..scores.matrix().rows() {
@@ -494,6 +689,66 @@ fn pick_threshold_f32(rng: &mut Rng, m: &[Vec<u32>], big: bool) -> u32 {
     }
 }
 
+
+/// A history for the reused buffer of a matrix case (see the header): earlier states of the ONE
+/// `StripedScores` with more rows than the final matrix (mostly), filled with values at / above the
+/// final maximum or threshold -- rows that a `resize` which does not truncate would leave behind --
+/// also fewer rows (the final resize then grows: default rows), zero rows, `score_rows_into` steps.
+/// Returns the ` h=... [w=k]` suffix (empty: a fresh buffer).
+fn gen_history(rng: &mut Rng, rows: usize, cols: usize, is_f32: bool, mx: Option<u32>, t: u32, compact_ok: bool) -> String {
+    if !compact_ok || rows > 300 || !rng.chance(3, 10) {
+        return String::new();
+    }
+    let steps = 1 + rng.below(3) as usize;
+    let mut ops: Vec<String> = vec![];
+    let mut scored = false;
+    for i in 0..steps {
+        let r_i = match rng.below(10) {
+            0 => 0,
+            1 => rng.below(rows as u64 + 1) as usize,
+            2 => rows,
+            _ if i + 1 == steps || rng.chance(1, 2) => rows + 1 + rng.below(8) as usize,
+            _ => rows + 1 + rng.below(40) as usize,
+        };
+        let v = if is_f32 {
+            let m = mx.unwrap_or(fbits(-3.0));
+            match rng.below(8) {
+                0 | 1 => if m == PINF { PINF } else { next_up(m) },
+                2 => if f32::from_bits(m) < 1.0e30 { fbits(f32::from_bits(m).abs() * 2.0 + 1.0) } else { PINF },
+                3 => m,
+                4 => t,
+                5 => PINF,
+                6 => fbits(1.0e30),
+                _ => rand_f32(rng, 0),
+            }
+        } else {
+            let m = mx.unwrap_or(3);
+            match rng.below(7) {
+                0 | 1 => (m + 1).min(255),
+                2 => 255,
+                3 => m,
+                4 => t.min(255),
+                5 => m.saturating_sub(1),
+                _ => rng.below(256) as u32,
+            }
+        };
+        match rng.below(20) {
+            0..=2 if cols == 32 && r_i >= 1 && r_i <= 8 => {
+                let a = rng.below(12 - r_i as u64 + 1) as usize;
+                ops.push(format!("S{}{}-{}", *rng.pick(&['g', 's', 'a']), a, a + r_i));
+                scored = true;
+            }
+            3..=5 => ops.push(format!("d{}:{}", r_i, v)),
+            _ => ops.push(format!("r{}:{}", r_i, v)),
+        }
+    }
+    let mut out = format!(" h={}", ops.join(";"));
+    if !scored && rows > 0 && rng.chance(1, 5) {
+        out.push_str(&format!(" w={}", rng.below(rows as u64 + 1)));
+    }
+    out
+}
+
 fn gen_f32(rng: &mut Rng, id: usize, sid: usize, tier: &str, cols: usize) -> String {
     // (48 columns: at most 2000 rows, i.e. the same number of cells as 3000 rows of 32)
     let rows = pick_rows(rng, tier, id).min(96000 / cols);
@@ -540,8 +795,9 @@ fn gen_f32(rng: &mut Rng, id: usize, sid: usize, tier: &str, cols: usize) -> Str
             t = if mx == PINF { PINF } else { next_up(mx) };
         }
     }
+    let hist = gen_history(rng, rows, cols, true, f32_max_bits(&m), t, true);
     format!(
-        "{} k={} R={} mi={} t={} m={}",
+        "{} k={} R={} mi={} t={}{} m={}",
         id,
         match cols {
             32 => "f32",
@@ -552,6 +808,7 @@ fn gen_f32(rng: &mut Rng, id: usize, sid: usize, tier: &str, cols: usize) -> Str
         rows,
         mi,
         t,
+        hist,
         show_matrix(&m)
     )
 }
@@ -613,14 +870,19 @@ fn gen_u8(rng: &mut Rng, id: usize, sid: usize, tier: &str, cols: usize) -> Stri
         48 => "b48",
         _ => "b64",
     };
-    format!("{} k={} R={} mi={} t={} m={}", id, kind, rows, mi, t, show_matrix(&m))
+    let hist = gen_history(rng, rows, cols, false, if flat.is_empty() { None } else { Some(mx) }, t, true);
+    format!("{} k={} R={} mi={} t={}{} m={}", id, kind, rows, mi, t, hist, show_matrix(&m))
 }
 
 fn gen_e2e(rng: &mut Rng, id: usize, tier: &str) -> String {
     let maxl = if tier == "thorough" { 700 } else { 200 };
     let mmax = if rng.chance(1, 8) { 40 } else { 14 };
     let mlen = 1 + rng.below(mmax) as usize;
+    // 2 in 5: the Scanner pattern (row ranges scored in turn into one buffer), a third of them 8-bit
+    let ranged = rng.chance(2, 5);
+    let discrete = ranged && rng.chance(1, 3);
     let l = match rng.below(12) {
+        _ if ranged => (mlen + 33 + rng.below(360) as usize).min(33 + maxl as usize * 2),
         0 => rng.below(mlen as u64 + 1) as usize,          // shorter than / equal to the motif
         1 => mlen + rng.below(3) as usize,
         2 => 32 * (1 + rng.below(4) as usize) + rng.below(3) as usize - 1,
@@ -638,8 +900,8 @@ fn gen_e2e(rng: &mut Rng, id: usize, tier: &str) -> String {
         .collect();
     // scoring matrix: either through the library's own conversions (counts -> frequencies
     // -> log-odds with the uniform background, which gives the wildcard -inf) or explicit
-    let pssm: Vec<Vec<u32>> = if rng.chance(1, 2) {
-        let pseudo = *rng.pick(&[0.0f32, 0.1, 0.25, 1.0]);
+    let pssm: Vec<Vec<u32>> = if discrete || rng.chance(1, 2) {
+        let pseudo = if discrete { *rng.pick(&[0.1f32, 0.25, 1.0]) } else { *rng.pick(&[0.0f32, 0.1, 0.25, 1.0]) };
         // every row must have the same (non-null) total
         let total = 20u64;
         let rows: Vec<Vec<u32>> = (0..mlen)
@@ -677,9 +939,46 @@ fn gen_e2e(rng: &mut Rng, id: usize, tier: &str) -> String {
             })
             .collect()
     };
+    let mut extra = String::new();
+    if ranged {
+        // blocks of B rows from the top, then the (shorter) last block: what Scanner does with
+        // its score buffer; now and then an empty range (resize(0, 0)) or a repeated block
+        let rows = (l + 31) / 32;
+        let b = 1 + rng.below(8) as usize;
+        let mut rr: Vec<(usize, usize)> = vec![];
+        let first = b.min(rows);
+        rr.push((0, first));
+        if rng.chance(1, 3) && 2 * b <= rows {
+            rr.push((b, 2 * b));
+        }
+        if rng.chance(1, 8) {
+            rr.push((first, first));
+        }
+        if rng.chance(1, 6) {
+            let n = rng.below(rows as u64 + 1) as usize;
+            rr.push((0, n));
+            rr.push((0, rows));
+        }
+        let last = 1 + rng.below(b as u64) as usize;
+        if rng.chance(9, 10) {
+            rr.push((rows - last.min(rows), rows));
+        }
+        let t = if discrete {
+            *rng.pick(&[0u32, 1, 60, 100, 128, 160, 200, 255])
+        } else {
+            *rng.pick(&[fbits(0.0), fbits(-2.0), fbits(-5.0), fbits(-10.0), fbits(-25.0), fbits(3.0), NINF, PINF])
+        };
+        extra = format!(
+            " rr={} t={}{}",
+            rr.iter().map(|(a, b)| format!("{}-{}", a, b)).collect::<Vec<_>>().join(";"),
+            t,
+            if discrete { " dt=u8" } else { "" }
+        );
+    }
     format!(
-        "{} k=e2e pssm={} seq={}",
+        "{} k=e2e{} pssm={} seq={}",
         id,
+        extra,
         show_matrix(&pssm),
         if seq.is_empty() { "-".to_string() } else { seq }
     )
@@ -823,6 +1122,39 @@ fn corpus() -> Vec<String> {
         let p: Vec<String> = cells.iter().map(|(r, c)| format!("{}:{}:200", r, c)).collect();
         push(format!("k=u8 R={} mi={} t=200 m=@3 p={}", rows, rows * 32, p.join(";")), &mut out);
     }
+    // REUSED buffers (seeded/C07/6): the one StripedScores held more rows before, with content at / above
+    // the final maximum and threshold; hand resize (the demo's 6 -> 2 rows), DenseMatrix-level resize,
+    // shrink to nothing, shrink then grow with a partial rewrite (regrown rows are default rows),
+    // score_rows_into of 8 rows on each backend before a 3-row matrix, other column counts
+    {
+        let m2: Vec<Vec<u32>> = (0..2).map(|r| (0..32).map(|c| (10 * r + c) as u32).collect()).collect();
+        push(format!("k=u8 R=2 mi=64 t=40 h=r6:99 m={}", show_matrix(&m2)), &mut out);
+        push(format!("k=u8 R=2 mi=64 t=41 h=r6:41 m={}", show_matrix(&m2)), &mut out);
+        push(format!("k=u8 R=2 mi=64 t=25 h=d6:99 m={}", show_matrix(&m2)), &mut out);
+        push(format!("k=u8 R=2 mi=64 t=25 h=r2:7;r40:200;r1:3 m={}", show_matrix(&m2)), &mut out);
+        push("k=u8 R=0 mi=0 t=0 h=r4:7 m=-".to_string(), &mut out);
+        push("k=f32 R=0 mi=0 t=0 h=r4:1065353216 m=-".to_string(), &mut out);
+        let m5: Vec<Vec<u32>> = (0..5).map(|r| (0..32).map(|c| (3 * r + c) as u32).collect()).collect();
+        push(format!("k=u8 R=5 mi=160 t=1 h=r6:9;r2:9 w=2 m={}", show_matrix(&m5)), &mut out);
+        push(format!("k=u8 R=5 mi=160 t=9 h=r6:9 w=2 m={}", show_matrix(&m5)), &mut out);
+        let mut f3 = vec![vec![fbits(-7.5); 32]; 3];
+        f3[1][17] = fbits(-1.0);
+        push(format!("k=f32 R=3 mi=96 t={} h=r8:{} m={}", fbits(-1.0), fbits(5.0), show_matrix(&f3)), &mut out);
+        push(format!("k=f32 R=3 mi=96 t={} h=r8:{} m={}", fbits(-1.0), fbits(-1.0), show_matrix(&f3)), &mut out);
+        push(format!("k=f32 R=3 mi=96 t={} h=d9:{} m={}", fbits(-7.5), fbits(-2.0), show_matrix(&f3)), &mut out);
+        push(format!("k=f32 R=3 mi=96 t={} h=r8:{} w=1 m={}", fbits(-7.5), fbits(-9.0), show_matrix(&f3)), &mut out);
+        let low = vec![vec![fbits(-60.0); 32]; 3];
+        for arm in ["g", "s", "a"] {
+            push(format!("k=f32 R=3 mi=96 t={} h=S{}0-8 m={}", fbits(-50.0), arm, show_matrix(&low)), &mut out);
+            push(format!("k=u8 R=3 mi=96 t=1 h=S{}2-10 m={}", arm, show_matrix(&vec![vec![0u32; 32]; 3])), &mut out);
+        }
+        let f16 = vec![vec![fbits(-7.5); 16]; 2];
+        push(format!("k=f16 R=2 mi=32 t={} h=r5:{} m={}", fbits(-7.5), fbits(1.0), show_matrix(&f16)), &mut out);
+        let f48 = vec![vec![fbits(-7.5); 48]; 2];
+        push(format!("k=f48 R=2 mi=96 t={} h=r5:{} m={}", fbits(-7.5), fbits(1.0), show_matrix(&f48)), &mut out);
+        let b64 = vec![vec![3u32; 64]; 2];
+        push(format!("k=b64 R=2 mi=128 t=3 h=r7:200 m={}", show_matrix(&b64)), &mut out);
+    }
     // no rows
     push("k=f32 R=0 mi=0 t=0 m=-".to_string(), &mut out);
     push("k=f16 R=0 mi=0 t=0 m=-".to_string(), &mut out);
@@ -844,6 +1176,20 @@ fn corpus() -> Vec<String> {
             format!("k=e2e pssm={} seq={}", show_matrix(&pssm), if seq.is_empty() { "-".into() } else { seq }),
             &mut out,
         );
+    }
+    // the Scanner pattern: 11 rows scored as 0..8 then 8..11 into one buffer (f32 and 8-bit), one-row
+    // blocks, an empty range in between
+    {
+        let fin = vec![
+            vec![fbits(-1.5), fbits(0.5), fbits(-2.0), fbits(1.0), NINF],
+            vec![fbits(0.75), fbits(-0.5), fbits(-3.0), fbits(-1.0), NINF],
+            vec![fbits(-4.0), fbits(-0.25), fbits(1.25), fbits(-0.75), NINF],
+        ];
+        let seq: String = (0..352).map(|i| ['A', 'C', 'T', 'G'][(i * 7 + i / 3 + i / 11) % 4]).collect();
+        for rr in ["0-8;8-11", "0-11;10-11", "0-8;8-8;8-11", "0-4;4-8;8-11", "3-9;0-1"] {
+            push(format!("k=e2e rr={} t={} pssm={} seq={}", rr, fbits(0.0), show_matrix(&fin), seq), &mut out);
+            push(format!("k=e2e rr={} t=160 dt=u8 pssm={} seq={}", rr, show_matrix(&fin), seq), &mut out);
+        }
     }
     out
 }
@@ -867,7 +1213,7 @@ fn main() {
             for line in stdin_lines() {
                 let (_id, f) = fields(&line);
                 let obs = match f["k"].as_str() {
-                    "e2e" => run_e2e(&parse_matrix(&f["pssm"]), if f["seq"] == "-" { "" } else { &f["seq"] }),
+                    "e2e" => run_e2e(&parse_matrix(&f["pssm"]), if f["seq"] == "-" { "" } else { &f["seq"] }, &f),
                     k => {
                         let cols = match k {
                             "f16" | "b16" => 16,
@@ -879,14 +1225,14 @@ fn main() {
                         let mi: usize = f["mi"].parse().unwrap();
                         let t: u32 = f["t"].parse().unwrap();
                         match k {
-                            "f32" => run_f32_32(&m, mi, t),
-                            "f16" => run_f32_cols::<U16>(&m, mi, t),
-                            "f48" => run_f32_cols::<U48>(&m, mi, t),
-                            "f64" => run_f32_cols::<U64>(&m, mi, t),
-                            "b16" => run_u8_cols::<U16>(&m, mi, t),
-                            "b48" => run_u8_cols::<U48>(&m, mi, t),
-                            "b64" => run_u8_cols::<U64>(&m, mi, t),
-                            "u8" => run_u8_32(&m, mi, t),
+                            "f32" => run_f32_32(&m, mi, t, &f),
+                            "f16" => run_f32_cols::<U16>(&m, mi, t, &f),
+                            "f48" => run_f32_cols::<U48>(&m, mi, t, &f),
+                            "f64" => run_f32_cols::<U64>(&m, mi, t, &f),
+                            "b16" => run_u8_cols::<U16>(&m, mi, t, &f),
+                            "b48" => run_u8_cols::<U48>(&m, mi, t, &f),
+                            "b64" => run_u8_cols::<U64>(&m, mi, t, &f),
+                            "u8" => run_u8_32(&m, mi, t, &f),
                             _ => panic!("unknown kind {}", k),
                         }
                     }
